@@ -64,6 +64,7 @@ type Config struct {
 	MaxSched     int
 	RaceCheck    bool
 	NoIfConv     bool
+	RandChoice   bool
 }
 
 type Exec struct {
